@@ -27,8 +27,9 @@
        unemb : list N -> Z        an inverse,   with   emb injective on dom (used where two addresses must have two keys)
                                   and unemb (emb a) = a on dom (used where bytes are turned back into an address),
    and the two conversion arguments of the generated accessors are instantiated with
-       bech a   = if a =? BAD_ADDR then Err ERR_ENT else Ok (emb a)     (exactly ent_AccAddressFromBech32 of the primitives:
-                                                                         only BAD_ADDR fails to parse)
+       bech a   = if addr_parses a then Ok (emb a) else Err ERR_ENT     (exactly ent_AccAddressFromBech32 of the primitives
+                                                                         and es_bech of model/EnterpriseStoreWorld.v: BAD_ADDR
+                                                                         and the empty string EMPTY_ADDR do not parse)
        astr b   = unemb b.
    The three address-keyed families need no length bound on emb (prefix byte ++ raw address); the whitelist needs
    emb a <> [] (the generated whitelist accessors treat the empty address specially).
@@ -459,14 +460,14 @@ Variable unemb : list N -> addr.
 Hypothesis emb_inj : forall a b, dom a -> dom b -> emb a = emb b -> a = b.
 Hypothesis unemb_emb : forall a, dom a -> unemb (emb a) = a.      (* implies emb_inj: [left_inverse_injective] below *)
 Hypothesis emb_nonempty : forall a, dom a -> emb a <> [].
-Hypothesis dom_parses : forall a, dom a -> a <> BAD_ADDR.
+Hypothesis dom_parses : forall a, dom a -> addr_parses a = true.
 
 (* the two conversion arguments of the generated accessors *)
-Definition bech (a : go_addr) : outcome (list N) := if a =? BAD_ADDR then Err ERR_ENT else Ok (emb a).
+Definition bech (a : go_addr) : outcome (list N) := if addr_parses a then Ok (emb a) else Err ERR_ENT.
 Definition astr (b : list N) : go_addr := unemb b.
 
 Lemma bech_dom a : dom a -> bech a = Ok (emb a).
-Proof. intros D. unfold bech. apply dom_parses, Z.eqb_neq in D. rewrite D. reflexivity. Qed.
+Proof. intros D. unfold bech. rewrite (dom_parses a D). reflexivity. Qed.
 
 (* every key of the store is one the module writes *)
 Definition key_ok (k : list N) : Prop :=
@@ -1629,11 +1630,14 @@ Lemma ex_emb_inj a b : ex_dom a -> ex_dom b -> ex_emb a = ex_emb b -> a = b.
 Proof. apply (left_inverse_injective ex_dom ex_emb ex_unemb ex_unemb_emb). Qed.
 Lemma ex_emb_nonempty a : ex_dom a -> ex_emb a <> [].
 Proof. intros _. discriminate. Qed.
-Lemma ex_dom_parses a : ex_dom a -> a <> BAD_ADDR.
-Proof. unfold ex_dom, BAD_ADDR. lia. Qed.
+Lemma ex_dom_parses a : ex_dom a -> addr_parses a = true.
+Proof.
+  unfold ex_dom, addr_parses, BAD_ADDR, EMPTY_ADDR. intros H.
+  destruct (Z.eqb_spec a (-999)); [lia|]. destruct (Z.eqb_spec a (-100)); [lia|]. reflexivity.
+Qed.
 
 (* the hypotheses also have an instance on every address that parses (a byte is an N in this byte model) *)
-Definition ex_dom_all (a : Z) : Prop := a <> BAD_ADDR.
+Definition ex_dom_all (a : Z) : Prop := addr_parses a = true.
 Definition ex_emb_all (a : Z) : list N := [if a <? 0 then (2 * Z.to_N (- a) + 1)%N else (2 * Z.to_N a)%N].
 Definition ex_unemb_all (b : list N) : Z :=
   match b with [x] => if N.odd x then - Z.of_N (N.div2 x) else Z.of_N (N.div2 x) | _ => 0 end.
@@ -1808,6 +1812,12 @@ Proof. vm_compute. split; reflexivity. Qed.
 Example SetLockedUndForAccount_owner_refuted :
   atrace [OpSetLocked (mk_go_LockedUnd BAD_ADDR (1, 5)); OpSetSpent (mk_go_SpentEFUND BAD_ADDR (1, 5))] = [Ok ObUnit; Ok ObUnit] /\
   ctrace [OpSetLocked (mk_go_LockedUnd BAD_ADDR (1, 5)); OpSetSpent (mk_go_SpentEFUND BAD_ADDR (1, 5))] = [Err 30; Err 30].
+Proof. vm_compute. split; reflexivity. Qed.
+
+(* ... and the empty string does not parse either (EMPTY_ADDR: sdk.AccAddressFromBech32("") is an error) *)
+Example SetLockedUndForAccount_empty_owner_refuted :
+  atrace [OpSetLocked (mk_go_LockedUnd EMPTY_ADDR (1, 5)); OpSetSpent (mk_go_SpentEFUND EMPTY_ADDR (1, 5))] = [Ok ObUnit; Ok ObUnit] /\
+  ctrace [OpSetLocked (mk_go_LockedUnd EMPTY_ADDR (1, 5)); OpSetSpent (mk_go_SpentEFUND EMPTY_ADDR (1, 5))] = [Err 30; Err 30].
 Proof. vm_compute. split; reflexivity. Qed.
 
 (* ids outside the uint64 range: -5 converts to 0, 2^64 wraps to 0 *)
